@@ -1,6 +1,12 @@
 """Property oracles evaluated on the implementation's own trace, independent of the Lean model.
 (filled in per property; see DESIGN.md §6)"""
-EXPECTED_THEOREMS = {}
+EXPECTED_THEOREMS = {
+    "C01": ["step_refines", "history_refines", "history_from_new", "get_by_borrowed_form", "srun_borrowed",
+            "index_panics_iff_absent", "sim_observables"],
+    "C03": ["insert_full_absent", "insert_key_value_full_absent", "checked_insert_full_absent",
+            "insert_present_on_full", "checked_insert_present_on_full", "insert_key_value_present_on_full",
+            "insert_len_le_cap"],
+}
 LAST_COUNT = [0]
 
 
